@@ -1,90 +1,379 @@
-(* H2c_proofs.v — the message framings of expand_message_xmd / _xof are injective
-   in (DST, msg, len_in_bytes): domain separation of RFC 9380 expanders. *)
+(* H2c_proofs.v — RFC 9380 expanders and hash_to_field.
+
+   1. gen_*_eq : every piece of gen/Expanders.v (regenerated from xmd.go / xof.go) equals the
+      RFC 9380 §5.3 transcription [rfc_*] of model/H2c.v.  A source change to a hashed byte
+      string, a threshold or a loop bound breaks one of these.
+   2. the message framings are injective in (DST, msg, len_in_bytes): domain separation.
+   3. the oversize rule leaves DSTs of at most 255 bytes untouched.
+   4. expand_message_xmd returns exactly len_in_bytes bytes and does not panic on the RFC's domain.
+   5. hash_to_field: every coordinate is OS2IP(chunk) mod p, chunks are the consecutive L-byte
+      pieces of uniform_bytes in the order (i, j). *)
 From Coq Require Import List NArith Bool Lia Arith PeanoNat.
 From Coq Require Import ZifyN ZifyNat ZifyBool.
 Import ListNotations.
-Require Import V.base.Bytes V.model.H2c.
+Require Import V.base.Bytes V.gen.Expanders V.model.H2c.
 Local Open Scope N_scope.
 
-Lemma i2osp1_inj a b : a < 256 -> b < 256 -> i2osp a 1 = i2osp b 1 -> a = b.
+(* ---- 1. generated = RFC ------------------------------------------------------------ *)
+
+Lemma repeat_zero_snoc k : repeat_zero k ++ [0] = 0 :: repeat_zero k.
+Proof. induction k as [|k IH]; cbn [repeat_zero app]; [reflexivity|]. rewrite IH. reflexivity. Qed.
+
+Lemma be_bytes_zero k : be_bytes k 0 = repeat_zero k.
+Proof.
+  induction k as [|k IH]; cbn [be_bytes repeat_zero]; [reflexivity|].
+  change (0 / 256) with 0. change (0 mod 256) with 0. rewrite IH. apply repeat_zero_snoc.
+Qed.
+
+Lemma gen_xmd_oversize_eq s b dst msg l : Xmd_oversize s b dst msg l = rfc_oversize dst.
+Proof. reflexivity. Qed.
+Lemma gen_xmd_oversize_input_eq s b dst msg l : Xmd_oversize_input s b dst msg l = rfc_oversize_prefix ++ dst.
+Proof. reflexivity. Qed.
+Lemma gen_xmd_abort_eq s b d msg l : Xmd_abort s b d msg l = rfc_xmd_abort l b.
+Proof. reflexivity. Qed.
+Lemma gen_xmd_blocks_eq s b d msg l : Xmd_blocks s b d msg l = rfc_xmd_ell l b + 1.
+Proof. reflexivity. Qed.
+Lemma gen_xmd_b0_eq s b d msg l : Xmd_b0_input s b d msg l = rfc_xmd_msg_prime s d msg l.
+Proof.
+  unfold Xmd_b0_input, rfc_xmd_msg_prime, i2osp. cbv zeta. rewrite be_bytes_zero. reflexivity.
+Qed.
+Lemma gen_xmd_b1_eq s b d msg l b0 : Xmd_b1_input s b d msg l b0 = rfc_xmd_b1_input b0 d.
+Proof. reflexivity. Qed.
+Lemma gen_xmd_bi_eq s b d msg l b0 bp i : Xmd_bi_input s b d msg l b0 bp i = rfc_xmd_bi_input b0 bp i d.
+Proof. reflexivity. Qed.
+Lemma gen_xmd_loop_from_eq s b d msg l : Xmd_loop_from s b d msg l = 2.
+Proof. reflexivity. Qed.
+Lemma gen_xmd_loop_cond_eq s b d msg l i : Xmd_loop_cond s b d msg l i = (i <=? rfc_xmd_ell l b).
+Proof. reflexivity. Qed.
+Lemma gen_xmd_out_from_eq s b d msg l : Xmd_out_from_block s b d msg l = 1.
+Proof. reflexivity. Qed.
+Lemma gen_xmd_out_truncate_eq s b d msg l : Xmd_out_truncate s b d msg l = l.
+Proof. reflexivity. Qed.
+
+Lemma gen_xof_oversize_eq k dst msg l : Xof_oversize k dst msg l = rfc_oversize dst.
+Proof. reflexivity. Qed.
+Lemma gen_xof_oversize_input_eq k dst msg l : Xof_oversize_input k dst msg l = rfc_oversize_prefix ++ dst.
+Proof. reflexivity. Qed.
+Lemma gen_xof_oversize_len_eq k dst msg l : Xof_oversize_len k dst msg l = rfc_xof_oversize_len k.
+Proof. reflexivity. Qed.
+Lemma gen_xof_abort_eq k d msg l : Xof_abort k d msg l = rfc_xof_abort l.
+Proof. reflexivity. Qed.
+Lemma gen_xof_input_eq k d msg l : Xof_input k d msg l = rfc_xof_msg_prime d msg l.
+Proof. reflexivity. Qed.
+Lemma gen_xof_out_len_eq k d msg l : Xof_out_len k d msg l = l.
+Proof. reflexivity. Qed.
+Lemma gen_xof_out_truncate_eq k d msg l : Xof_out_truncate k d msg l = l.
+Proof. reflexivity. Qed.
+
+(* all of them at once: the generated expanders are the RFC's *)
+Theorem generated_expanders_are_rfc9380 :
+  (forall s b dst msg l, Xmd_oversize s b dst msg l = rfc_oversize dst /\
+                         Xmd_oversize_input s b dst msg l = rfc_oversize_prefix ++ dst /\
+                         Xmd_abort s b dst msg l = rfc_xmd_abort l b /\
+                         Xmd_blocks s b dst msg l = rfc_xmd_ell l b + 1 /\
+                         Xmd_b0_input s b dst msg l = rfc_xmd_msg_prime s dst msg l /\
+                         Xmd_loop_from s b dst msg l = 2 /\
+                         Xmd_out_from_block s b dst msg l = 1 /\
+                         Xmd_out_truncate s b dst msg l = l) /\
+  (forall s b dst msg l b0 bp i, Xmd_b1_input s b dst msg l b0 = rfc_xmd_b1_input b0 dst /\
+                         Xmd_bi_input s b dst msg l b0 bp i = rfc_xmd_bi_input b0 bp i dst /\
+                         Xmd_loop_cond s b dst msg l i = (i <=? rfc_xmd_ell l b)) /\
+  (forall k dst msg l,   Xof_oversize k dst msg l = rfc_oversize dst /\
+                         Xof_oversize_input k dst msg l = rfc_oversize_prefix ++ dst /\
+                         Xof_oversize_len k dst msg l = rfc_xof_oversize_len k /\
+                         Xof_abort k dst msg l = rfc_xof_abort l /\
+                         Xof_input k dst msg l = rfc_xof_msg_prime dst msg l /\
+                         Xof_out_len k dst msg l = l /\
+                         Xof_out_truncate k dst msg l = l).
+Proof.
+  split; [|split].
+  - intros. repeat split; try reflexivity. apply gen_xmd_b0_eq.
+  - intros. repeat split; reflexivity.
+  - intros. repeat split; reflexivity.
+Qed.
+
+(* ---- 2. injectivity of the framings ------------------------------------------------ *)
+
+Lemma be1_inj a b : a < 256 -> b < 256 -> be_bytes 1 a = be_bytes 1 b -> a = b.
 Proof. intros Ha Hb. apply be_bytes_inj; cbn; lia. Qed.
 
-Lemma i2osp2_inj a b : a < 65536 -> b < 65536 -> i2osp a 2 = i2osp b 2 -> a = b.
+Lemma be2_inj a b : a < 65536 -> b < 65536 -> be_bytes 2 a = be_bytes 2 b -> a = b.
 Proof. intros Ha Hb. apply be_bytes_inj; cbn; lia. Qed.
 
 Lemma dst_prime_tail_inj (x y d d' : bytes) :
   len d < 256 -> len d' < 256 ->
-  x ++ dst_prime_of d = y ++ dst_prime_of d' -> x = y /\ d = d'.
+  x ++ rfc_dst_prime d = y ++ rfc_dst_prime d' -> x = y /\ d = d'.
 Proof.
-  intros Hd Hd' H. unfold dst_prime_of in H. rewrite !app_assoc in H.
-  apply app_inj_tail_length in H; [|unfold i2osp; rewrite !be_bytes_length; reflexivity].
-  destruct H as [H H1]. apply i2osp1_inj in H1; [|assumption|assumption].
+  intros Hd Hd' H. unfold rfc_dst_prime in H. rewrite !app_assoc in H.
+  apply app_inj_tail_length in H; [|rewrite !be_bytes_length; reflexivity].
+  destruct H as [H H1]. apply be1_inj in H1; [|assumption|assumption].
   apply len_inj in H1.
   apply app_inj_tail_length in H; [|exact H1]. exact H.
 Qed.
 
-Theorem xof_msg_prime_injective d msg l d' msg' l' :
+Lemma rfc_xof_msg_prime_injective d msg l d' msg' l' :
   len d < 256 -> len d' < 256 -> l < 65536 -> l' < 65536 ->
-  xof_msg_prime d msg l = xof_msg_prime d' msg' l' -> d = d' /\ msg = msg' /\ l = l'.
+  rfc_xof_msg_prime d msg l = rfc_xof_msg_prime d' msg' l' -> d = d' /\ msg = msg' /\ l = l'.
 Proof.
-  intros Hd Hd' Hl Hl' H. unfold xof_msg_prime in H. rewrite !app_assoc in H.
+  intros Hd Hd' Hl Hl' H. unfold rfc_xof_msg_prime in H. rewrite !app_assoc in H.
   apply dst_prime_tail_inj in H; [|assumption|assumption].
   destruct H as [H ->].
-  apply app_inj_tail_length in H; [|unfold i2osp; rewrite !be_bytes_length; reflexivity].
-  destruct H as [-> H2]. apply i2osp2_inj in H2; [|assumption|assumption]. subst.
+  apply app_inj_tail_length in H; [|rewrite !be_bytes_length; reflexivity].
+  destruct H as [-> H2]. apply be2_inj in H2; [|assumption|assumption]. subst.
   repeat split; reflexivity.
 Qed.
 
-Theorem xmd_msg_prime_injective s d msg l d' msg' l' :
+Lemma rfc_xmd_msg_prime_injective s d msg l d' msg' l' :
   len d < 256 -> len d' < 256 -> l < 65536 -> l' < 65536 ->
-  xmd_msg_prime s d msg l = xmd_msg_prime s d' msg' l' -> d = d' /\ msg = msg' /\ l = l'.
+  rfc_xmd_msg_prime s d msg l = rfc_xmd_msg_prime s d' msg' l' -> d = d' /\ msg = msg' /\ l = l'.
 Proof.
-  intros Hd Hd' Hl Hl' H. unfold xmd_msg_prime in H.
+  intros Hd Hd' Hl Hl' H. unfold rfc_xmd_msg_prime in H.
   apply app_inv_head in H. rewrite !app_assoc in H.
   apply dst_prime_tail_inj in H; [|assumption|assumption].
   destruct H as [H ->].
   apply app_inj_tail_length in H; [|reflexivity]. destruct H as [H _].
-  apply app_inj_tail_length in H; [|unfold i2osp; rewrite !be_bytes_length; reflexivity].
-  destruct H as [-> H2]. apply i2osp2_inj in H2; [|assumption|assumption]. subst.
+  apply app_inj_tail_length in H; [|rewrite !be_bytes_length; reflexivity].
+  destruct H as [-> H2]. apply be2_inj in H2; [|assumption|assumption]. subst.
   repeat split; reflexivity.
 Qed.
 
-(* The first hash call of the XMD expander (b_0) is made on an input that
-   determines DST, message and requested length; with H idealised as injective
-   this gives: different (DST, msg, len) => different b_0 => unrelated outputs. *)
-Theorem xmd_b0_binds (H : bytes -> bytes) s d msg l d' msg' l' :
+(* about the generated msg_prime (model/H2c.v [xmd_msg_prime] IS gen/Expanders.v [Xmd_b0_input]) *)
+Theorem xmd_msg_prime_injective b s d msg l d' msg' l' :
+  len d < 256 -> len d' < 256 -> l < 65536 -> l' < 65536 ->
+  xmd_msg_prime b s d msg l = xmd_msg_prime b s d' msg' l' -> d = d' /\ msg = msg' /\ l = l'.
+Proof.
+  unfold xmd_msg_prime. rewrite !gen_xmd_b0_eq. apply rfc_xmd_msg_prime_injective.
+Qed.
+
+Theorem xof_msg_prime_injective k d msg l d' msg' l' :
+  len d < 256 -> len d' < 256 -> l < 65536 -> l' < 65536 ->
+  xof_msg_prime k d msg l = xof_msg_prime k d' msg' l' -> d = d' /\ msg = msg' /\ l = l'.
+Proof.
+  unfold xof_msg_prime. rewrite !gen_xof_input_eq. apply rfc_xof_msg_prime_injective.
+Qed.
+
+(* The first hash call of the XMD expander (b_0) is made on an input that determines DST, message
+   and requested length; with H idealised as injective this gives: different (DST, msg, len) =>
+   different b_0 => unrelated outputs. *)
+Theorem xmd_b0_binds (H : bytes -> bytes) b s d msg l d' msg' l' :
   (forall x y, H x = H y -> x = y) ->
   len d < 256 -> len d' < 256 -> l < 65536 -> l' < 65536 ->
-  H (xmd_msg_prime s d msg l) = H (xmd_msg_prime s d' msg' l') ->
+  H (xmd_msg_prime b s d msg l) = H (xmd_msg_prime b s d' msg' l') ->
   d = d' /\ msg = msg' /\ l = l'.
 Proof.
   intros Hinj Hd Hd' Hl Hl' E. apply Hinj in E.
   eapply xmd_msg_prime_injective; eassumption.
 Qed.
 
-(* output length of the XMD expander, when every hash output has b bytes *)
-Lemma xmd_blocks_length (H : bytes -> bytes) b k i b0 bp d :
-  (forall x, length (H x) = b) -> length (xmd_blocks H k i b0 bp d) = (k * b)%nat.
+(* the later hash inputs never collide with the first one's domain separator position: b_1 and b_i
+   inputs end in the same DST_prime, so they bind the DST as well *)
+Theorem xmd_bi_binds_dst s b d msg l b0 bp i d' msg' l' b0' bp' i' :
+  len d < 256 -> len d' < 256 ->
+  Xmd_bi_input s b d msg l b0 bp i = Xmd_bi_input s b d' msg' l' b0' bp' i' -> d = d'.
 Proof.
-  intros Hb. revert i bp; induction k as [|k IH]; intros i bp; cbn [xmd_blocks]; [reflexivity|].
-  rewrite app_length, Hb, IH. lia.
+  intros Hd Hd'. rewrite !gen_xmd_bi_eq. unfold rfc_xmd_bi_input. rewrite !app_assoc.
+  intros H. apply dst_prime_tail_inj in H; [|assumption|assumption]. apply H.
+Qed.
+
+(* ---- 3. the oversize rule ------------------------------------------------------------ *)
+
+Theorem xmd_dst_verbatim (H : bytes -> bytes) b s dst msg l :
+  len dst <= 255 -> xmd_dst H b s dst msg l = dst.
+Proof.
+  intros Hl. unfold xmd_dst. rewrite gen_xmd_oversize_eq. unfold rfc_oversize.
+  destruct (255 <? len dst) eqn:E; [apply N.ltb_lt in E; lia|reflexivity].
+Qed.
+
+Theorem xmd_dst_oversize (H : bytes -> bytes) b s dst msg l :
+  255 < len dst -> xmd_dst H b s dst msg l = H (rfc_oversize_prefix ++ dst).
+Proof.
+  intros Hl. unfold xmd_dst. rewrite gen_xmd_oversize_eq, gen_xmd_oversize_input_eq. unfold rfc_oversize.
+  destruct (255 <? len dst) eqn:E; [reflexivity|apply N.ltb_ge in E; lia].
+Qed.
+
+Theorem xof_dst_verbatim (X : bytes -> N -> bytes) k dst msg l :
+  len dst <= 255 -> xof_dst X k dst msg l = dst.
+Proof.
+  intros Hl. unfold xof_dst. rewrite gen_xof_oversize_eq. unfold rfc_oversize.
+  destruct (255 <? len dst) eqn:E; [apply N.ltb_lt in E; lia|reflexivity].
+Qed.
+
+Theorem xof_dst_oversize (X : bytes -> N -> bytes) k dst msg l :
+  255 < len dst -> xof_dst X k dst msg l = X (rfc_oversize_prefix ++ dst) ((2 * k + 7) / 8).
+Proof.
+  intros Hl. unfold xof_dst. rewrite gen_xof_oversize_eq, gen_xof_oversize_input_eq, gen_xof_oversize_len_eq.
+  unfold rfc_oversize, rfc_xof_oversize_len.
+  destruct (255 <? len dst) eqn:E; [reflexivity|apply N.ltb_ge in E; lia].
+Qed.
+
+Theorem xmd_dst_rule (H : bytes -> bytes) b s dst msg l :
+  (len dst <= 255 -> xmd_dst H b s dst msg l = dst) /\
+  (255 < len dst -> xmd_dst H b s dst msg l = H (rfc_oversize_prefix ++ dst)).
+Proof. split; [apply xmd_dst_verbatim | apply xmd_dst_oversize]. Qed.
+
+Theorem xof_dst_rule (X : bytes -> N -> bytes) k dst msg l :
+  (len dst <= 255 -> xof_dst X k dst msg l = dst) /\
+  (255 < len dst -> xof_dst X k dst msg l = X (rfc_oversize_prefix ++ dst) ((2 * k + 7) / 8)).
+Proof. split; [apply xof_dst_verbatim | apply xof_dst_oversize]. Qed.
+
+(* ---- 4. output length / no panic ------------------------------------------------------ *)
+
+Lemma concat_length_const {A} (ls : list (list A)) nb :
+  Forall (fun x => length x = nb) ls -> length (concat ls) = (length ls * nb)%nat.
+Proof.
+  induction 1 as [|x ls Hx _ IH]; cbn [concat length]; [reflexivity|].
+  rewrite app_length, Hx, IH. lia.
+Qed.
+
+Lemma xmd_loop_shape (H : bytes -> bytes) (b s : N) nb d msg l b0 :
+  (forall x, length (H x) = nb) ->
+  forall fuel i bp,
+    Forall (fun x => length x = nb) (xmd_loop H b s fuel i d msg l b0 bp) /\
+    length (xmd_loop H b s fuel i d msg l b0 bp) = Nat.min fuel (N.to_nat (rfc_xmd_ell l b + 1 - i)).
+Proof.
+  intros Hb. induction fuel as [|k IH]; intros i bp; cbn [xmd_loop].
+  - split; [constructor|reflexivity].
+  - rewrite gen_xmd_loop_cond_eq. destruct (i <=? rfc_xmd_ell l b) eqn:E.
+    + destruct (IH (i + 1) (H (Xmd_bi_input s b d msg l b0 bp i))) as [IH1 IH2]. split.
+      * constructor; [apply Hb|exact IH1].
+      * apply N.leb_le in E. cbn [length]. rewrite IH2.
+        assert (Hs : N.to_nat (rfc_xmd_ell l b + 1 - i) = S (N.to_nat (rfc_xmd_ell l b + 1 - (i + 1)))) by lia.
+        rewrite Hs. reflexivity.
+    + apply N.leb_gt in E. split; [constructor|]. cbn [length].
+      assert (Hs : N.to_nat (rfc_xmd_ell l b + 1 - i) = 0%nat) by lia. rewrite Hs. reflexivity.
 Qed.
 
 Theorem expand_message_xmd_length (H : bytes -> bytes) (b s : N) dst msg l out :
-  0 < b -> (forall x, length (H x) = N.to_nat b) ->
   expand_message_xmd H b s dst msg l = Some out -> length out = N.to_nat l.
 Proof.
-  intros Hb0 Hb. unfold expand_message_xmd.
-  destruct ((255 <? xmd_ell b l) || (65535 <? l)) eqn:E; [discriminate|].
-  destruct (xmd_ell b l =? 0) eqn:E0; [discriminate|].
-  intros E2. injection E2 as <-.
-  rewrite firstn_length_le; [reflexivity|].
-  rewrite app_length, Hb, (xmd_blocks_length H (N.to_nat b)) by exact Hb.
-  unfold xmd_ell in *.
-  assert (Hdiv : l <= b * ((l + b - 1) / b)).
-  { pose proof (N.div_mod (l + b - 1) b ltac:(lia)) as Hdm.
-    pose proof (N.mod_lt (l + b - 1) b ltac:(lia)). nia. }
-  destruct (N.eq_dec l 0) as [->|Hl0]; [lia|].
-  assert (1 <= (l + b - 1) / b). { apply N.div_le_lower_bound; lia. }
-  nia.
+  unfold expand_message_xmd.
+  destruct (Xmd_abort _ _ _ _ _); [discriminate|].
+  destruct (Xmd_blocks _ _ _ _ _ <? 2); [discriminate|].
+  rewrite gen_xmd_out_truncate_eq.
+  match goal with |- context [len ?u <? l] => generalize u; intros uu; destruct (len uu <? l) eqn:E; [discriminate|] end.
+  intros E2. injection E2 as <-. rewrite firstn_length_le; [reflexivity|]. apply N.ltb_ge in E. unfold len in E. lia.
+Qed.
+
+(* on the RFC's domain (0 < len_in_bytes <= 65535, ell <= 255) the expander returns a value:
+   the code neither aborts nor indexes/slices out of range *)
+Theorem expand_message_xmd_defined (H : bytes -> bytes) (b s : N) dst msg l :
+  0 < b -> (forall x, length (H x) = N.to_nat b) ->
+  0 < l -> rfc_xmd_abort l b = false ->
+  exists out, expand_message_xmd H b s dst msg l = Some out /\ length out = N.to_nat l.
+Proof.
+  intros Hb0 Hb Hl Hab.
+  destruct (expand_message_xmd H b s dst msg l) as [out|] eqn:E.
+  - exists out. split; [reflexivity|]. eapply expand_message_xmd_length; exact E.
+  - exfalso. revert E. unfold expand_message_xmd.
+    rewrite gen_xmd_abort_eq, Hab, gen_xmd_blocks_eq.
+    assert (Hell : 1 <= rfc_xmd_ell l b).
+    { unfold rfc_xmd_ell. apply N.div_le_lower_bound; lia. }
+    destruct (rfc_xmd_ell l b + 1 <? 2) eqn:E2; [apply N.ltb_lt in E2; lia|].
+    rewrite gen_xmd_out_from_eq, gen_xmd_out_truncate_eq, gen_xmd_loop_from_eq.
+    change (N.to_nat 1) with 1%nat. cbn [skipn concat].
+    match goal with |- context [xmd_loop H b s ?f ?i ?d msg l ?b0 ?bp] =>
+      destruct (xmd_loop_shape H b s (N.to_nat b) d msg l b0 Hb f i bp) as [S1 S2];
+      set (rest := xmd_loop H b s f i d msg l b0 bp) in * end.
+    match goal with |- context [len ?u <? l] => destruct (len u <? l) eqn:E3; [|discriminate] end.
+    intros _. apply N.ltb_lt in E3. unfold len in E3.
+    pose proof (concat_length_const rest (N.to_nat b) S1) as Hc.
+    clearbody rest. unfold bytes in *. rewrite app_length, Hb, Hc, S2 in E3.
+    assert (Hdiv : l <= b * rfc_xmd_ell l b).
+    { unfold rfc_xmd_ell.
+      pose proof (N.div_mod (l + b - 1) b ltac:(lia)) as Hdm.
+      pose proof (N.mod_lt (l + b - 1) b ltac:(lia)). nia. }
+    assert (Hmin : Nat.min (N.to_nat (rfc_xmd_ell l b + 1)) (N.to_nat (rfc_xmd_ell l b + 1 - 2))
+                   = N.to_nat (rfc_xmd_ell l b - 1)).
+    { replace (rfc_xmd_ell l b + 1 - 2) with (rfc_xmd_ell l b - 1) by lia. apply Nat.min_r. lia. }
+    rewrite Hmin in E3. nia.
+Qed.
+
+Theorem expand_message_xof_length (X : bytes -> N -> bytes) k dst msg l out :
+  (forall x n, length (X x n) = N.to_nat n) ->
+  expand_message_xof X k dst msg l = Some out -> length out = N.to_nat l.
+Proof.
+  intros HX. unfold expand_message_xof.
+  destruct (Xof_abort _ _ _ _); [discriminate|].
+  rewrite gen_xof_out_truncate_eq, gen_xof_out_len_eq.
+  intros E. injection E as <-. rewrite firstn_length_le; [reflexivity|]. rewrite HX. lia.
+Qed.
+
+(* ---- 5. hash_to_field ------------------------------------------------------------------ *)
+
+Lemma le_value_app a b : le_value (a ++ b) = le_value a + 256 ^ len a * le_value b.
+Proof.
+  induction a as [|x a IH]; cbn [app le_value].
+  - unfold len. cbn [length N.of_nat]. rewrite N.pow_0_r. lia.
+  - rewrite IH. unfold len. cbn [length]. rewrite Nat2N.inj_succ, N.pow_succ_r'. lia.
+Qed.
+
+Lemma be_value_cons x l : be_value (x :: l) = x * 256 ^ len l + be_value l.
+Proof.
+  revert x. induction l as [|y l IH] using rev_ind; intros x.
+  - unfold be_value, len. cbn [fold_left length N.of_nat]. rewrite N.pow_0_r. lia.
+  - change (x :: l ++ [y]) with ((x :: l) ++ [y]). rewrite !be_value_app, IH, len_app.
+    change (len [y]) with 1. rewrite N.pow_add_r, N.pow_1_r. lia.
+Qed.
+
+(* Reverse + little-endian read = OS2IP *)
+Lemma le_value_rev l : le_value (rev l) = be_value l.
+Proof.
+  induction l as [|x l IH]; [reflexivity|].
+  cbn [rev]. rewrite le_value_app, IH, be_value_cons.
+  unfold len. rewrite rev_length. cbn [le_value]. lia.
+Qed.
+
+(* RFC 9380 §5.2 step 7: e_j = OS2IP(tv) mod p with tv = substr(uniform_bytes, L*(j+i*m), L) *)
+Theorem h2f_coordinate_spec p L m u i j :
+  h2f_coordinate p L m u i j = be_value (substr u (L * (j + i * m)) L) mod p.
+Proof. unfold h2f_coordinate, set_bytes_wide, elm_offset. rewrite le_value_rev. reflexivity. Qed.
+
+Lemma nseq_length k from : length (nseq k from) = k.
+Proof. revert from; induction k as [|k IH]; intros from; cbn [nseq length]; [reflexivity|]. rewrite IH. reflexivity. Qed.
+
+Lemma nseq_nth k from n : (n < k)%nat -> nth_error (nseq k from) n = Some (from + N.of_nat n).
+Proof.
+  revert from n; induction k as [|k IH]; intros from [|n] Hn; cbn [nseq nth_error]; try lia.
+  - f_equal. lia.
+  - rewrite IH by lia. f_equal. lia.
+Qed.
+
+Theorem hash_to_field_shape p L m count u :
+  length (hash_to_field_from_uniform p L m count u) = N.to_nat count /\
+  Forall (fun e => length e = N.to_nat m) (hash_to_field_from_uniform p L m count u).
+Proof.
+  unfold hash_to_field_from_uniform. split.
+  - rewrite map_length, nseq_length. reflexivity.
+  - apply Forall_forall. intros e He. apply in_map_iff in He. destruct He as [i [<- _]].
+    unfold h2f_element. rewrite map_length, nseq_length. reflexivity.
+Qed.
+
+(* element i, coordinate j of the result is OS2IP of the (i*m+j)-th L-byte chunk, reduced *)
+Theorem hash_to_field_nth p L m count u i j :
+  (i < N.to_nat count)%nat -> (j < N.to_nat m)%nat ->
+  option_map (fun e => nth_error e j) (nth_error (hash_to_field_from_uniform p L m count u) i)
+  = Some (Some (be_value (substr u (L * (N.of_nat j + N.of_nat i * m)) L) mod p)).
+Proof.
+  intros Hi Hj. unfold hash_to_field_from_uniform.
+  rewrite nth_error_map, nseq_nth by exact Hi. cbn [option_map]. unfold h2f_element.
+  rewrite nth_error_map, nseq_nth by exact Hj. cbn [option_map].
+  rewrite h2f_coordinate_spec. rewrite !N.add_0_l. reflexivity.
+Qed.
+
+Theorem hash_to_field_in_range p L m count u :
+  0 < p -> Forall (Forall (fun c => c < p)) (hash_to_field_from_uniform p L m count u).
+Proof.
+  intros Hp. apply Forall_forall. intros e He. apply in_map_iff in He. destruct He as [i [<- _]].
+  apply Forall_forall. intros c Hc. apply in_map_iff in Hc. destruct Hc as [j [<- _]].
+  unfold h2f_coordinate, set_bytes_wide. apply N.mod_lt. lia.
+Qed.
+
+(* hash_to_field inherits domain separation from the expander: it is a function of the expander
+   output only, and it asks the expander for count*m*L bytes *)
+Theorem hash_to_field_factors expand p L m count dst msg r :
+  hash_to_field expand p L m count dst msg = Some r ->
+  exists u, expand dst msg (count * m * L) = Some u /\ r = hash_to_field_from_uniform p L m count u.
+Proof.
+  unfold hash_to_field. destruct (expand dst msg (count * m * L)) as [u|]; [|discriminate].
+  intros E. injection E as <-. exists u. split; reflexivity.
 Qed.
